@@ -192,6 +192,7 @@ func checkC01(c KeyCase) (bool, *Violation) {
 // ---------------------------------------------------------------- C02
 
 func isNoteOn(m []byte) bool { return len(m) == 3 && m[0]&0xf0 == 0x90 && m[2] > 0 }
+
 // sameMsgSet: the same messages, in whatever order.
 func sameMsgSet(a, b [][]byte) bool {
 	if len(a) != len(b) {
